@@ -5,6 +5,7 @@ import (
 	"context"
 	"errors"
 	"fmt"
+	"regexp"
 	"sort"
 	"strings"
 	"time"
@@ -12,6 +13,7 @@ import (
 	gerrors "github.com/acquirecloud/golibs/errors"
 	"github.com/acquirecloud/golibs/kvs"
 	"github.com/gobwas/glob"
+	"verifh/internal/deepdump"
 )
 
 // MRec is a record of the reference model.
@@ -287,7 +289,11 @@ func (m *Model) Apply(o Op, d0 *Driver) Want {
 		delete(m.Recs, o.Key)
 		return Want{Err: "nil"}
 	case "list":
-		g := glob.MustCompile(o.Pat)
+		g, gerr := glob.Compile(o.Pat)
+		if gerr != nil {
+			// the pattern syntax is gobwas/glob's: what that library rejects is refused, every time, and nothing is listed
+			return Want{Err: "invalid-pattern"}
+		}
 		w := Want{Err: "nil", Keys: []string{}}
 		for k := range m.Recs {
 			w.All = append(w.All, k)
@@ -421,6 +427,17 @@ func (d *Driver) Exec(o Op, w Want) (clause, detail string) {
 		}
 	case "list":
 		it, err := d.St.ListKeys(ctx, o.Pat)
+		if w.Err == "invalid-pattern" {
+			if err == nil {
+				var got []string
+				for it != nil && it.HasNext() {
+					k, _ := it.Next()
+					got = append(got, k)
+				}
+				return bad("error", "accepted a pattern that is not valid gobwas/glob syntax and listed %q", got)
+			}
+			return "", ""
+		}
 		if ErrClass(err) != w.Err {
 			return bad("error", "returned %s, contract says %s", ErrClass(err), w.Err)
 		}
@@ -544,6 +561,17 @@ func (m *Model) CanonKeyAt(d *Driver, keys []string, now time.Time) string {
 	}
 	return b.String()
 }
+
+// ImplDump renders the complete in-process state of the storage behind d (every field it has) with version strings
+// replaced by the model's tokens, for use inside a deduplication key: see package deepdump.
+func (d *Driver) ImplDump() string {
+	s := deepdump.Dump(d.St, deepdump.Options{})
+	// version strings are replaced by a constant: every record carries exactly one, the implementation only compares it
+	// for equality with what a caller passes in, and which caller-side versions are current / stale is in the model key
+	return ulidRe.ReplaceAllString(s, "v")
+}
+
+var ulidRe = regexp.MustCompile(`[0-9A-HJKMNP-TV-Z]{26}`)
 
 // CanonKey is the canonical model state for deduplication.
 func (m *Model) CanonKey(d *Driver, keys []string) string {
